@@ -293,8 +293,9 @@ def worker(case: Dict[str, Any]) -> CaseResult:
                 body = [n for n in ast.parse(init).body if not isinstance(n, ast.Expr)]
                 if body and not marker_ops:
                     violations.append(Violation(PROP, "no-reimports-empties-init", "[%s] __init__ still has statements: %s" % (label, init[:200]), fl, replay_case, mech="c15:no-reimports:" + label))
-            if plist == [SR, FR_MODULE] and "ShorterResults+ClientForwardRefs" in results:
-                other = results["ShorterResults+ClientForwardRefs"]
+            twin_label = "+".join(SHORT[FR if p_ == FR_MODULE else p_] for p_ in plist)
+            if FR_MODULE in plist and twin_label in results:
+                other = results[twin_label]
                 count("module_path_spelling_checks")
                 for f in sorted(p.name for p in other["dir"].glob("*.py")):
                     a = (other["dir"] / f).read_bytes().replace(other["dir"].name.encode(), b"PKG")
@@ -361,8 +362,10 @@ def run(tier: str, seed: int) -> int:
         pl.append([ID] if i % 2 == 0 else ([MA, MB] if i % 4 == 1 else [MB, MA]))
         if i % 3 == 0:
             # the same list spelled with a class path and with a module path must give byte-identical packages
-            pl.append([SR, FR])
-            pl.append([SR, FR_MODULE])
+            # (module path first, class path second is the order in which a two-pass resolution of the list would go wrong)
+            twin = [[SR, FR], [FR, SR], [FR, EO], [NR, FR, SR]][(i // 3) % 4]
+            pl.append(twin)
+            pl.append([FR_MODULE if p_ == FR else p_ for p_ in twin])
         c["plugin_lists"] = pl
         cases.append(c)
 
